@@ -137,8 +137,20 @@ def _ops_consumed(f: FuncInfo) -> set[str]:
     """Operator strings compared with ``self.current_token[1]`` in f (literal collections, or module-level tables whose
     keys / elements are the operators)."""
     out = set()
+    # locals that stand for the current token (`token = self.current_token`)
+    tok = {"self.current_token"} | {norm(a.targets[0]) for a in own_nodes(f.node) if isinstance(a, ast.Assign) and len(a.targets) == 1
+                                     and isinstance(a.targets[0], ast.Name) and norm(a.value) == "self.current_token"}
     for n in own_nodes(f.node):
-        if isinstance(n, ast.Compare) and norm(n.left) == "self.current_token[1]":
+        # the whole token compared with a (type, operator) pair: `self.current_token != ("OP", "**")`
+        if isinstance(n, ast.Compare) and norm(n.left) in tok and len(n.ops) == 1 and isinstance(n.ops[0], (ast.Eq, ast.NotEq, ast.In, ast.NotIn)):
+            c = _module_literal(f, n.comparators[0])
+            pairs = [c] if isinstance(n.ops[0], (ast.Eq, ast.NotEq)) else (list(c.elts) if isinstance(c, (ast.Tuple, ast.Set, ast.List)) else [])
+            for q in pairs:
+                q = _module_literal(f, q)
+                if isinstance(q, ast.Tuple) and len(q.elts) == 2 and all(isinstance(e, ast.Constant) for e in q.elts) and q.elts[0].value == "OP" \
+                        and isinstance(q.elts[1].value, str):
+                    out.add(q.elts[1].value)
+        if isinstance(n, ast.Compare) and norm(n.left) in {t + "[1]" for t in tok}:
             for c in n.comparators:
                 c = _module_literal(f, c)
                 if isinstance(c, ast.Constant) and isinstance(c.value, str):
@@ -242,14 +254,42 @@ def rule_r2_r3_r4(ctx):
     # the '-' branch of the unary handler returns the negation of what the same (or a looser) tier parses next: the
     # sign applies to the whole following unary expression, never to a token or to a tighter-binding piece of it
     tier_idx = {g.name: i for i, (g, _, _) in enumerate(chain)}
-    minus_ifs = [n for n in own_nodes(fu.node) if isinstance(n, ast.If) and any(
-        isinstance(c, ast.Compare) and any((isinstance(k, ast.Constant) and k.value == "-") or (
-            isinstance(k, (ast.Tuple, ast.Set, ast.List)) and [e.value for e in k.elts if isinstance(e, ast.Constant)] == ["-"]) for k in c.comparators)
-        for c in ast.walk(n.test))]
+    def _minus_cmp(n):
+        # the comparison of the test that names '-' (alone, in a one-element collection, or as the pair ("OP", "-"))
+        for c in ast.walk(n.test):
+            if isinstance(c, ast.Compare) and any(
+                    (isinstance(k, ast.Constant) and k.value == "-")
+                    or (isinstance(k, (ast.Tuple, ast.Set, ast.List)) and [e.value for e in k.elts if isinstance(e, ast.Constant)] in (["-"], ["OP", "-"]))
+                    for k in (_module_literal(fu, k0) for k0 in c.comparators)):
+                return c
+        return None
+
+    def _minus_region(n):
+        # the statements that run when the current token is '-': the body of a positive test; for a negative one
+        # (`!=`, `not in`, under `not`) the else branch and, when the body leaves the function, what follows the if
+        c = _minus_cmp(n)
+        neg = isinstance(c.ops[0], (ast.NotEq, ast.NotIn))
+        q = getattr(c, "_parent", None)
+        while q is not None and q is not n:
+            if isinstance(q, ast.UnaryOp) and isinstance(q.op, ast.Not):
+                neg = not neg
+            q = getattr(q, "_parent", None)
+        if not neg:
+            return list(n.body)
+        out_ = list(n.orelse)
+        if n.body and isinstance(n.body[-1], (ast.Return, ast.Raise)):
+            par = getattr(n, "_parent", None)
+            for fld in ("body", "orelse"):
+                blk = getattr(par, fld, None)
+                if isinstance(blk, list) and n in blk:
+                    out_ += blk[blk.index(n) + 1:]
+        return out_
+
+    minus_ifs = [n for n in own_nodes(fu.node) if isinstance(n, ast.If) and _minus_cmp(n) is not None]
     ok = bool(minus_ifs)
     badret = None
     for iff in minus_ifs:
-        for r in (x for st in iff.body for x in ast.walk(st) if isinstance(x, ast.Return)):
+        for r in (x for st in _minus_region(iff) for x in ast.walk(st) if isinstance(x, ast.Return)):
             v = r.value
             neg = isinstance(v, ast.UnaryOp) and isinstance(v.op, ast.USub)
             operand = v.operand if neg else None
